@@ -107,6 +107,14 @@ def check_case(case: dict):
         sup = {"away": b in ("control", "away", "both"), "mild": b == "control", "breezeless": b in ("control", "breezeless", "both")}
         if (ac.supports_breeze_away, ac.supports_breeze_mild, ac.supports_breezeless) != (sup["away"], sup["mild"], sup["breezeless"]):
             return fail("profile/supports", f"supports_* {(ac.supports_breeze_away, ac.supports_breeze_mild, ac.supports_breezeless)} for profile {profile}")
+        # what the unit advertises is what the client reports as supported (absolute, not relative to another parse)
+        adv = {"supports_vertical_swing_angle": profile["ud"], "supports_horizontal_swing_angle": profile["lr"], "supports_ieco": profile["ieco"],
+               "supports_self_clean": profile["self_clean"]}
+        for attr, want_ in adv.items():
+            if bool(getattr(ac, attr)) != bool(want_):
+                return fail("profile/supports", f"{attr} is {getattr(ac, attr)!r} for a unit that {'advertises' if want_ else 'does not advertise'} it (profile {profile})")
+        if bool(ac.supported_rate_selects and len([r_ for r_ in ac.supported_rate_selects if int(r_) != 100]) > 0) != bool(profile["rate"]):
+            return fail("profile/supports", f"supported_rate_selects {ac.supported_rate_selects} for rate profile {profile['rate']}")
         # client-side logical values and pending set (model of what the user asked for)
         cv = {"ud": 0, "lr": 0, "rate": 100, "breeze": 1, "ieco": False}
         pending = set()
